@@ -211,3 +211,31 @@ Lemma h_held_checked :
   chk_C18 os_mv (model_history t0 os_mv h_held) = true /\
   chk_C18 os_mv (with_del (model_history t0 os_mv h_held)) = false.
 Proof. repeat split; vm_compute; reflexivity. Qed.
+
+(* ---- the hypotheses of the checker theorem on the concrete histories -------------------------------- *)
+From Mdns Require Import IntfCheckerProofs.
+
+Lemma witnesses_hist_wf :
+  hist_wf os_ok h_ok = true /\ hist_wf os_w1 h_goodbye = true /\ hist_wf os_mv h_moved = true /\
+  hist_wf os_mv h_held = true /\ hist_wf os_x h_xfam = true /\ hist_wf os_w2 h_absent = true.
+Proof. repeat split; vm_compute; reflexivity. Qed.
+
+Lemma more_hyps :
+  (uniq_keysb os_mv = true /\ wf_stepsb h_moved = true /\ known_class (initial_state t0 os_mv) h_moved = false) /\
+  (wf_stepsb h_held = true /\ known_class (initial_state t0 os_mv) h_held = false) /\
+  (uniq_keysb os_x = true /\ wf_stepsb h_xfam = true /\ known_class (initial_state t0 os_x) h_xfam = false).
+Proof. repeat split; vm_compute; reflexivity. Qed.
+
+(* the same IPv4 address on two interfaces (outside hist_wf): eth0 is disabled by name, the service
+   is announced on eth1 - but the IPv4 socket is told the ADDRESS, and the first interface that
+   owns it is eth0: the packet is seen to leave on the disabled interface and the checker rejects *)
+Definition e_eth1_same : iface := mkIface (b "eth1") 3 (mkIfAddr (ip4 192 168 1 10) mask24).
+Definition os_dup : list iface := [e_eth0_v4; e_eth1_same].
+Definition h_dup : list step :=
+  [ mkStep t0 None [] [CDisable [KName (b "eth0")]];
+    mkStep (t0 + 100) None [] [CRegister (c18_svc "Svc0" [ip4 192 168 1 10]) false] ].
+Lemma h_dup_facts :
+  hist_wf os_dup h_dup = false /\ uniq_keysb os_dup = true /\ known_class (initial_state t0 os_dup) h_dup = false /\
+  last_ifs (run (initial_state t0 os_dup) h_dup) = [2] /\
+  chk_C18 os_dup (model_history t0 os_dup h_dup) = false.
+Proof. repeat split; vm_compute; reflexivity. Qed.
